@@ -13,14 +13,15 @@ import (
 	"github.com/gdamore/tcell/v2/terminfo"
 	xenc "golang.org/x/text/encoding"
 
-	_ "verif/harness/common"
+	"verif/harness/common"
 	"verif/hc"
 	ri "verif/ref/input"
 )
 
 var charsets = []string{"UTF-8", "US-ASCII", "ISO8859-1", "ISO8859-2", "ISO8859-3", "ISO8859-4", "ISO8859-5", "ISO8859-6", "ISO8859-7", "ISO8859-8",
 	"ISO8859-9", "ISO8859-10", "ISO8859-13", "ISO8859-14", "ISO8859-15", "ISO8859-16", "KOI8-R", "KOI8-U",
-	"EUC-JP", "SHIFT_JIS", "EUC-KR", "GB18030", "GBK", "Big5"}
+	"EUC-JP", "SHIFT_JIS", "EUC-KR", "GB18030", "GBK", "Big5",
+	"GB2312"} // what a zh_CN.GB2312 locale means: the EUC form of GB 2312-80 (common.EUCCN)
 
 type cs struct {
 	name string
@@ -30,6 +31,9 @@ type cs struct {
 // encode returns the charset's encoding of r if r round-trips through the x/text codec
 // (which is taken as the definition of the charset).
 func (c *cs) encode(r rune) ([]byte, bool) {
+	if c.enc == common.EUCCN && common.EUCCNAmbiguous(r) {
+		return nil, false // GB 2312-80 proper and the GBK table differ there
+	}
 	var src [4]byte
 	n := utf8.EncodeRune(src[:], r)
 	dst := make([]byte, 8)
@@ -170,7 +174,7 @@ func main() {
 			w.Violation("no-encoding:"+name, "charset "+name+" is not registered", nil)
 			continue
 		}
-		c := &cs{name, enc}
+		c := &cs{name, common.RefCodec(name, enc)}
 		sweep(w, c, ci)
 		texts(w, c, ci)
 	}
